@@ -20,6 +20,7 @@
 package main
 
 import (
+	"regexp"
 	"strings"
 	"time"
 
@@ -333,6 +334,33 @@ func f3Family(p *prog, a, b outcome) bool {
 }
 
 // the canonical F3 case, compared on every run (its text is the key of the known finding)
+// known finding F5: the constant-path `=` shortcut bypasses a user-defined _assign/2 (the general form calls it).
+// Narrow attribution: the program defines _assign with two parameters and the difference is between the original
+// and its R7 variant (which only defeats that shortcut).
+var userAssignRe = regexp.MustCompile(`def\s+_assign\s*\(\s*\$?\w+\s*;\s*\$?\w+\s*\)`)
+
+func f5Family(p *prog) bool { return hasAssign(p.query) && userAssignRe.MatchString(p.src) }
+
+// the canonical F5 case, compared on every run so that the KNOWN-FINDING line is printed (and so that a change of
+// either observation is reported: the text then no longer matches the recorded finding)
+func canonicalF5(c *Ctx) {
+	src := `def _assign(p; x): 28; {a: 1} | (.a = 2), (.a.b = 3)?, (.["a"] = 4)`
+	p, ok1 := prepare(src)
+	if !ok1 {
+		return
+	}
+	vs := variants(p.query)
+	v, ok2 := prepare(vs[7])
+	if !ok2 {
+		return
+	}
+	a := runProg(p, nil, nil, time.Second)
+	b := runProg(v, nil, nil, time.Second)
+	if obsString(a, false) != obsString(b, false) {
+		c.Violation("(c04-differs R7 (program %s) (variant %s) (input null) (optimised %s) (deoptimised %s))", src, vs[7], obsString(a, false), obsString(b, false))
+	}
+}
+
 func canonicalF3(c *Ctx) {
 	p, ok1 := prepare(".a = 1")
 	v, ok2 := prepare("(.a | .) = 1")
@@ -405,15 +433,10 @@ func streamC04(c *Ctx) {
 	}
 	nvar, ncmp := 0, 0
 	canonicalF3(c)
+	canonicalF5(c)
 	byRule := map[int]int{}
 	for _, src := range progs {
 		if !handPicked[src] && dangerous(src) {
-			continue
-		}
-		if strings.Contains(src, "def _assign") {
-			// reported as finding F5 (docs/C04.findings.txt): the constant-path `=` shortcut bypasses a user-defined
-			// _assign/2 while the general form calls it; kept out of the rewrite comparison until it is decided
-			c.Count("excluded-F5-user-assign")
 			continue
 		}
 		p, ok := prepare(src)
@@ -492,6 +515,10 @@ func streamC04(c *Ctx) {
 				// a variant may or may not defeat the setpath shortcut (R2, R6, R0 do when the path
 				// holds a rewritten key): both the original and its R7 variant are legitimate references
 				if v.rule == 7 {
+					if f5Family(p) {
+						c.Count("attributed-F5")
+						continue
+					}
 					if f3Family(p, base, oc) {
 						c.Count("attributed-F3")
 						continue
